@@ -145,13 +145,18 @@ class Builder:
         self.domain_used = set()
 
     def fn_fragment(self, fname, sink, s, e, top=False, bind=None, excl=None, cvar=None, clos=None):
-        if (fname, sink) in self.stack:
+        # a generic helper that is handed a closure may be entered again from inside that closure with another closure
+        # (`write_list(rows, |row| write_list(row, |cell| ..))`): that is nesting, not recursion
+        ckey = tuple(sorted((k_, id(v_[0]) if isinstance(v_, tuple) else id(v_)) for k_, v_ in (clos or {}).items()))
+        if (fname, sink, ckey) in self.stack:
             raise Anchor("recursion through %s is not cut by a nonterminal" % fname)
         if len(self.stack) > 24:
             raise Anchor("expansion too deep at %s" % fname)
-        self.stack.append((fname, sink))
+        self.stack.append((fname, sink, ckey))
         t, S = self.linker.body(fname, sink, keep_sets=True)
         S = stmt.sepify(sepchain(S), strict=True)
+        if S[0] != "seq":
+            S = ("seq", [S])        # the sequence-level idioms (first / rest iterators, correlated guards) apply to a lone statement too
         saved = (self.fixed, self.bind, self.assigned, self.excl, self.cvar, self.clos, self.pending)
         self.clos = dict(clos or {})
         self.pending = {}
@@ -559,6 +564,25 @@ class Builder:
                         return "some:" + pl.lstrip("*&")
         return None
 
+    def let_else_payload(self, x):
+        """for `let V(inner) = scrut else {..}` where the caller excluded variants of the payload of `scrut` (paths (V, W)):
+        (inner name, {(W,) ..}); None otherwise"""
+        if x[0] != "alt" or len(x[1]) != 2:
+            return None
+        for g, b in x[1]:
+            ge = g.get("e")
+            if g.get("taken") is True and isinstance(ge, dict) and ge.get("k") == "stmt_let" and ge.get("els") is not None and isinstance(ge.get("init"), dict):
+                pt = ge.get("pat") or {}
+                pd = (pt.get("path") or {}).get("def")
+                subs = pt.get("subs") or []
+                scr = (H.place(ge["init"]) or "").lstrip("*&")
+                if pt.get("k") == "variant" and pd and len(subs) == 1 and subs[0].get("k") == "bind" and scr and scr not in self.assigned:
+                    ex = self.excl.get(scr, ())
+                    inner = {q[1:] for q in ex if len(q) == 2 and q[0] == pd}
+                    if inner:
+                        return subs[0]["name"], inner
+        return None
+
     def let_escape(self, x):
         """`if let VARIANT = local { continue / return }` with nothing else: (local, variant path, escaping branch)"""
         if x[0] != "alt" or len(x[1]) != 2:
@@ -614,6 +638,20 @@ class Builder:
                     self.fixed[sg] = val
                     self.build_seq(items[i:], cur, e, fn_end, fname)
                     del self.fixed[sg]
+                return
+            lx = self.let_else_payload(x)
+            if lx is not None:
+                # `let Some(inner) = scrut else { return };`: what the caller excluded for the payload of `scrut` holds for `inner`
+                nm, inner = lx
+                nxt = e if i == len(items) - 1 else a.state()
+                self.build(x, cur, nxt, fn_end, fname)
+                old = self.excl.get(nm)
+                self.excl[nm] = set(old or ()) | inner
+                self.build_seq(items[i + 1:], nxt, e, fn_end, fname)
+                if old is None:
+                    self.excl.pop(nm, None)
+                else:
+                    self.excl[nm] = old
                 return
             le = self.let_escape(x)
             if le is not None:
